@@ -48,7 +48,11 @@ func main() {
 	fs.Parse(os.Args[2:])
 	if needBubble[name] {
 		// the whole run happens under a fake clock (testing/synctest): timers fire deterministically
-		inBubble(func() { run(name, *seed, *n, *tier, *out, *stats, *replay, *mode) })
+		inBubble(func() {
+			run(name, *seed, *n, *tier, *out, *stats, *replay, *mode)
+			os.Stdout.Sync()
+			os.Exit(0) // do not wait for goroutines or timers the code under test may have leaked
+		})
 		return
 	}
 	run(name, *seed, *n, *tier, *out, *stats, *replay, *mode)
